@@ -28,18 +28,6 @@ theorem echoLength_agrees : Gen.C03Tables.echoLength = echoLengthTable := by dec
 
 /-! ### the outcome in the vocabulary of the property -/
 
-private theorem reqSid_some {r : Req} {b : Bytes} (h : genuineB r b = true ∨ foreignB r b = true ∨ undecodableB r b = true) :
-    ∃ s, Reply.reqSid r = some s := by
-  cases hs : Reply.reqSid r with
-  | some s => exact ⟨s, rfl⟩
-  | none => simp [genuineB, foreignB, undecodableB, hs] at h
-
-private theorem decodable_iff (b : Bytes) : Decodable b = true ↔ ∃ x, decodeResp b = .ok x := by
-  unfold Decodable; cases decodeResp b <;> simp
-
-private theorem decodable_ne_nil {b : Bytes} (h : Decodable b = true) : b ≠ [] := by
-  rintro rfl; simp [Decodable, decodeResp, UdsResp.gate, dispatch] at h
-
 /-- **genuine replies are always accepted**: a negative response naming the request's service with a listed code, or
     the decodable positive response of that service echoing the request's primary identifier, is returned by
     `parse_pdu` — as the decoded reply itself -/
@@ -106,7 +94,8 @@ theorem undecodable_malformed (r : Req) (hwf : r.WF) (b : Bytes) (h : Undecodabl
 
 /-! ### the three classes partition all exchanges, the three outcomes are exhaustive -/
 
-private theorem class_partition (r : Req) (s : UInt8) (hs : Reply.reqSid r = some s) (b : Bytes) (hb : b ≠ []) :
+/-- the three classes are exclusive and exhaustive (as Boolean tests) for every non-empty reply -/
+theorem classes_partition (r : Req) (s : UInt8) (hs : Reply.reqSid r = some s) (b : Bytes) (hb : b ≠ []) :
     (genuineB r b = true ∧ foreignB r b = false ∧ undecodableB r b = false) ∨
     (genuineB r b = false ∧ foreignB r b = true ∧ undecodableB r b = false) ∨
     (genuineB r b = false ∧ foreignB r b = false ∧ undecodableB r b = true) := by
@@ -153,7 +142,7 @@ theorem trichotomy (r : Req) (hwf : r.WF) (hr : encode r ≠ []) (b : Bytes) (hb
     | nil => exact absurd h hr
     | cons a t => exact ⟨a, rfl⟩
   unfold Genuine Foreign UndecodableSameService
-  rcases class_partition r s hs b hb with ⟨h1, h2, h3⟩ | ⟨h1, h2, h3⟩ | ⟨h1, h2, h3⟩
+  rcases classes_partition r s hs b hb with ⟨h1, h2, h3⟩ | ⟨h1, h2, h3⟩ | ⟨h1, h2, h3⟩
   · obtain ⟨x, _, hx⟩ := genuine_accepted r hwf b h1
     exact Or.inl ⟨h1, by simp [h2], by simp [h3], x, hx⟩
   · exact Or.inr (Or.inl ⟨by simp [h1], h2, by simp [h3], foreign_refused r hwf b h2⟩)
@@ -195,6 +184,22 @@ theorem suppress_irrelevant (r : Req) (hwf : r.WF) (v : Bool) (b : Bytes) :
       have : specAccept (view (withSuppress v r)) s (b0 :: bt) = specAccept (view r) s (b0 :: bt) := by
         unfold specAccept; cases r <;> rfl
       rw [this]
+
+/-! ### opaque positive replies (the echo-length heuristic of `RawPositiveResponse.matches`) -/
+
+/-- a positive reply without a typed class (unknown service, or unknown sub-function of ReadDTCInformation /
+    DynamicallyDefineDataIdentifier / RoutineControl) is never the answer to a typed request: either it belongs to
+    another service, or the echo-length comparison fails on the sub-function byte -/
+theorem opaque_reply_refused_for_typed_request (r : Req) (hwf : r.WF) (hraw : r.isRaw = false) (b : Bytes)
+    (hg : UdsResp.gate b = .ok .raw) : parsePdu b r = .mismatch := by
+  have hd : decodeResp b = .ok (.rawPos b) := by unfold decodeResp; rw [hg]
+  have hb : b ≠ [] := by rintro rfl; exact gate_nil_ne_raw hg
+  obtain ⟨s, hs⟩ : ∃ s, sidLit r = some s := by cases r <;> simp [sidLit, Req.isRaw] at hraw ⊢
+  have hs' : Reply.reqSid r = some s := by unfold Reply.reqSid; rw [head_encode]; exact hs
+  rw [parsePdu_char r hwf s hs' b hb, hd]
+  have hv : view r = r := by cases r <;> first | rfl | simp [Req.isRaw] at hraw
+  simp only [hv, (rawPos_typed b hg r s hs hraw hwf).2]
+  rfl
 
 /-! ### accepted negative responses and the exception map -/
 
